@@ -7,10 +7,14 @@
 //! 2 GiB, and the parent watches for progress, so `crash` / `hang` / `alloc` are observables too.
 //!
 //! Requests compared with the Lean model (lean/RtenVerif/Driver/C05.lean):
-//!   onnx <dtype> <dims|-> raw=<n|-> ext=<none|loc|meta|fail|ok:bytes:off> f=<n> i32=<n> i64=<n> f64=<n>
+//!   onnx <dtype> <dims|-> raw=<n|-> ext=<none|loc|meta|fail|ref:len:off:buflen> f=<n> i32=<n> i64=<n> f64=<n>
 //!   rten <rel|ovf> inline <ty> <dims|-> n=<n>
 //!   rten <rel|ovf> stored <ty> <dims|-> tdo=<n|-> off=<n> slen=<n>
 //!   hdr  <rel|ovf> <version> <model_offset> <model_len> <tensor_data_offset> <file_len>
+//!   onnxall <tensor> | <tensor> | …      (several initializers: first error, or `ok d l;d l;…`)
+//!   rtenall <mode> tdo=<n> slen=<n> | inline <ty> <dims> n=<n> | stored <ty> <dims> off=<n> | …
+//!   constop <outputs> <attr,attr,…|-> | <tensor>   (Constant node; `value` attrs carry <tensor>)
+//!   attrconst <-|n>                    (attribute promoted to a constant input: scalar or n-vector)
 //!   nest <subgraph|raw> <depth>      (ONNX file with <depth> levels of embedded messages;
 //!                                     answer `err:parse` | `past-parse`, C38's nesting limit)
 //! answers: `ok <dims|-> <len>` | `err:<class>` | `panic` (hdr: `ok` | `err:header` | `panic`).
@@ -111,6 +115,10 @@ enum Answer {
     Class,
     /// `err:parse` if the loader reports a parse error, else `past-parse`
     Parse,
+    /// constants `c`, `c1`, … `c<n-1>`: `ok d l;d l;…` or the first error
+    All(usize),
+    /// the single constant without a name
+    Unnamed,
 }
 
 struct Case {
@@ -478,7 +486,9 @@ const ONNX_DTYPES: [(&str, i64, u64); 8] = [
     ("float16", 10, 2),
 ];
 
-fn case_onnx(rng: &mut Rng, k: usize) -> Case {
+/// One adversarial TensorProto named `name` (external data, if any, in `<extfile>`):
+/// (tensor, external buffers, request fragment `<dtype> <dims> raw=… ext=… f=… i32=… i64=… f64=…`, buckets).
+fn gen_onnx_tensor(rng: &mut Rng, k: usize, name: &str, extfile: &str) -> (TP, Vec<(String, Vec<u8>)>, String, Vec<String>) {
     let mut buckets = vec![];
     // data type
     let (dt_name, dt_code, size): (&str, Option<i64>, u64) = match k % 11 {
@@ -492,7 +502,7 @@ fn case_onnx(rng: &mut Rng, k: usize) -> Case {
     };
     let (dims, dkind, p) = gen_dims_i64(rng);
     let n = gen_count(rng, p);
-    let mut tp = TP { name: "c".into(), dims: dims.clone(), dtype: dt_code, ..Default::default() };
+    let mut tp = TP { name: name.into(), dims: dims.clone(), dtype: dt_code, ..Default::default() };
     let mut ext_bufs = vec![];
     let mut ext_s = "none".to_string();
     let slack = |rng: &mut Rng| if size > 1 && rng.chance(1, 6) { 1 + rng.below(size - 1) } else { 0 };
@@ -521,9 +531,9 @@ fn case_onnx(rng: &mut Rng, k: usize) -> Case {
             }
             if src_kind == "raw+ext" {
                 tp.data_location = Some(1);
-                tp.ext_kv = vec![("location".into(), "w.data".into()), ("offset".into(), "0".into()), ("length".into(), "4".into())];
-                ext_bufs.push(("w.data".to_string(), vec![1u8; 16]));
-                ext_s = "ok:4:0".into();
+                tp.ext_kv = vec![("location".into(), extfile.into()), ("offset".into(), "0".into()), ("length".into(), "4".into())];
+                ext_bufs.push((extfile.to_string(), vec![1u8; 16]));
+                ext_s = "ref:4:0:16".into();
             }
         }
         "typed" => {
@@ -546,15 +556,15 @@ fn case_onnx(rng: &mut Rng, k: usize) -> Case {
             let buf: Vec<u8> = (0..off + len + tail).map(|i| (i * 3 + 2) as u8).collect();
             tp.data_location = Some(1);
             tp.ext_kv = vec![
-                ("location".into(), "w.data".into()),
+                ("location".into(), extfile.into()),
                 ("offset".into(), off.to_string()),
                 ("length".into(), len.to_string()),
             ];
             if rng.chance(1, 5) {
                 tp.ext_kv.push(("checksum".into(), "abc".into()));
             }
-            ext_s = format!("ok:{len}:{off}");
-            ext_bufs.push(("w.data".to_string(), buf));
+            ext_s = format!("ref:{len}:{off}:{}", off + len + tail);
+            ext_bufs.push((extfile.to_string(), buf));
             if rng.chance(1, 4) {
                 // typed data present as well: external data wins
                 fill_typed(&mut tp, rng, 2);
@@ -565,9 +575,9 @@ fn case_onnx(rng: &mut Rng, k: usize) -> Case {
             match rng.below(5) {
                 0 => {
                     // buffer too short
-                    tp.ext_kv = vec![("location".into(), "w.data".into()), ("offset".into(), "8".into()), ("length".into(), "64".into())];
-                    ext_bufs.push(("w.data".to_string(), vec![0u8; 16]));
-                    ext_s = "fail".into();
+                    tp.ext_kv = vec![("location".into(), extfile.into()), ("offset".into(), "8".into()), ("length".into(), "64".into())];
+                    ext_bufs.push((extfile.to_string(), vec![0u8; 16]));
+                    ext_s = "ref:64:8:16".into();
                 }
                 1 => {
                     // unknown file
@@ -575,17 +585,17 @@ fn case_onnx(rng: &mut Rng, k: usize) -> Case {
                     ext_s = "fail".into();
                 }
                 2 => {
-                    tp.ext_kv = vec![("location".into(), "w.data".into()), ("offset".into(), "-1".into()), ("length".into(), "4".into())];
+                    tp.ext_kv = vec![("location".into(), extfile.into()), ("offset".into(), "-1".into()), ("length".into(), "4".into())];
                     ext_s = "meta".into();
                 }
                 3 => {
-                    tp.ext_kv = vec![("location".into(), "w.data".into()), ("length".into(), "4".into())];
+                    tp.ext_kv = vec![("location".into(), extfile.into()), ("length".into(), "4".into())];
                     ext_s = "meta".into();
                 }
                 _ => {
-                    tp.ext_kv = vec![("location".into(), "w.data".into()), ("offset".into(), "18446744073709551615".into()), ("length".into(), "18446744073709551615".into())];
-                    ext_bufs.push(("w.data".to_string(), vec![0u8; 16]));
-                    ext_s = "fail".into();
+                    tp.ext_kv = vec![("location".into(), extfile.into()), ("offset".into(), "18446744073709551615".into()), ("length".into(), "18446744073709551615".into())];
+                    ext_bufs.push((extfile.to_string(), vec![0u8; 16]));
+                    ext_s = "ref:18446744073709551615:18446744073709551615:16".into();
                 }
             }
         }
@@ -596,8 +606,8 @@ fn case_onnx(rng: &mut Rng, k: usize) -> Case {
         }
     }
     let raw_s = tp.raw.as_ref().map(|r| r.len().to_string()).unwrap_or("-".into());
-    let req = format!(
-        "onnx {dt_name} {} raw={raw_s} ext={ext_s} f={} i32={} i64={} f64={}",
+    let frag = format!(
+        "{dt_name} {} raw={raw_s} ext={ext_s} f={} i32={} i64={} f64={}",
         dims_str(&dims),
         tp.floats.len(),
         tp.int32s.len(),
@@ -607,12 +617,17 @@ fn case_onnx(rng: &mut Rng, k: usize) -> Case {
     buckets.push(format!("onnx:dtype:{dt_name}"));
     buckets.push(format!("onnx:dims:{dkind}"));
     buckets.push(format!("onnx:src:{src_kind}"));
+    (tp, ext_bufs, frag, buckets)
+}
+
+fn case_onnx(rng: &mut Rng, k: usize) -> Case {
+    let (tp, ext_bufs, frag, mut buckets) = gen_onnx_tensor(rng, k, "c", "w.data");
     let as_const_op = k % 7 == 6;
     buckets.push(format!("onnx:as:{}", if as_const_op { "constant-op" } else { "initializer" }));
     // a second, valid initializer so the rest of the model is non-trivial
     let k2 = TP { name: "k".into(), dims: vec![2], dtype: Some(1), raw: Some(vec![0; 8]), ..Default::default() };
     Case {
-        req,
+        req: format!("onnx {frag}"),
         fmt: Fmt::Onnx,
         bytes: onnx_model(&[tp, k2], as_const_op),
         ext: ext_bufs,
@@ -620,6 +635,177 @@ fn case_onnx(rng: &mut Rng, k: usize) -> Case {
         buckets,
         nontrivial: true,
         via_file: k % 16 == 3,
+    }
+}
+
+/// Several adversarial initializers in one graph: the load fails with the FIRST rejected one.
+fn case_onnx_all(rng: &mut Rng, k: usize) -> Case {
+    let n = 2 + rng.usize_below(2);
+    let mut tps = vec![];
+    let mut exts = vec![];
+    let mut frags = vec![];
+    let mut buckets = vec![format!("onnxall:{n}")];
+    for i in 0..n {
+        // bias towards acceptable tensors so that later ones are reached
+        let kk = if rng.chance(2, 3) { rng.usize_below(8) } else { k + i };
+        let (mut tp, e, frag, _) = gen_onnx_tensor(rng, kk, &format!("c{i}"), &format!("w{i}.data"));
+        if i == 0 {
+            tp.name = "c".into();
+        }
+        tps.push(tp);
+        exts.extend(e);
+        frags.push(frag);
+    }
+    buckets.push("onnxall".into());
+    Case {
+        req: format!("onnxall {}", frags.join(" | ")),
+        fmt: Fmt::Onnx,
+        bytes: onnx_model(&tps, false),
+        ext: exts,
+        answer: Answer::All(n),
+        buckets,
+        nontrivial: true,
+        via_file: false,
+    }
+}
+
+/// `Constant` nodes with every flavour of value attribute (also several / none / unsupported).
+fn case_constop(rng: &mut Rng, k: usize) -> Case {
+    let kk = rng.usize_below(11);
+    let (tp, ext_bufs, frag, _) = gen_onnx_tensor(rng, kk, "ignored", "w.data");
+    let nattrs = match rng.below(8) {
+        0 => 0,
+        1 | 2 => 2,
+        3 => 3,
+        _ => 1,
+    };
+    let mut toks = vec![];
+    let mut node = Vec::new();
+    let outputs = if rng.chance(1, 10) { *rng.pick(&[0usize, 2]) } else { 1 };
+    for i in 0..outputs {
+        f_str(&mut node, 2, if i == 0 { "c" } else { "c_extra" });
+    }
+    f_str(&mut node, 3, "const_node");
+    f_str(&mut node, 4, "Constant");
+    let mut used_value = false;
+    for _ in 0..nattrs {
+        let mut attr = Vec::new();
+        match rng.below(10) {
+            0 | 1 => {
+                f_str(&mut attr, 1, "value_int");
+                f_i64(&mut attr, 3, *rng.pick(&[0i64, -1, i64::MAX, i64::MIN, 7]));
+                f_i64(&mut attr, 20, 2);
+                toks.push("int".to_string());
+            }
+            2 => {
+                f_str(&mut attr, 1, "value_float");
+                onnx_enc::f_f32(&mut attr, 2, 1.5);
+                f_i64(&mut attr, 20, 1);
+                toks.push("float".to_string());
+            }
+            3 | 4 => {
+                let n = *rng.pick(&[0usize, 1, 2, 5, 300]);
+                f_str(&mut attr, 1, "value_ints");
+                // unpacked (proto2) encoding, the only one rten-onnx's AttributeProto accepts
+                for i in 0..n {
+                    f_i64(&mut attr, 8, i as i64 - 2);
+                }
+                f_i64(&mut attr, 20, 7);
+                toks.push(format!("ints:{n}"));
+            }
+            5 => {
+                let n = *rng.pick(&[0usize, 1, 3, 64]);
+                f_str(&mut attr, 1, "value_floats");
+                for i in 0..n {
+                    onnx_enc::f_f32(&mut attr, 7, i as f32);
+                }
+                f_i64(&mut attr, 20, 6);
+                toks.push(format!("floats:{n}"));
+            }
+            6 | 7 if !used_value => {
+                f_str(&mut attr, 1, "value");
+                let mut t = tp.clone();
+                t.name = "inner".into();
+                f_bytes(&mut attr, 5, &t.encode());
+                f_i64(&mut attr, 20, 4);
+                toks.push("value".to_string());
+                used_value = true;
+            }
+            8 => {
+                f_str(&mut attr, 1, *rng.pick(&["value_string", "sparse_value", "value_strings", "foo"]));
+                f_bytes(&mut attr, 4, b"abc");
+                f_i64(&mut attr, 20, 3);
+                toks.push("other".to_string());
+            }
+            9 => {
+                // attribute without a name: skipped by the loader
+                f_i64(&mut attr, 3, 5);
+                toks.push("unnamed".to_string());
+            }
+            _ => {
+                f_str(&mut attr, 1, "value");
+                f_i64(&mut attr, 20, 4);
+                toks.push("notensor".to_string());
+            }
+        }
+        f_bytes(&mut node, 5, &attr);
+    }
+    let mut g = Vec::new();
+    f_bytes(&mut g, 1, &node);
+    f_bytes(&mut g, 1, &onnx_enc::Node::new("Identity", "id", &["c"], &["y"]).encode());
+    f_str(&mut g, 2, "g");
+    f_bytes(&mut g, 12, &onnx_enc::ValueInfo::new("y", 1, None).encode());
+    let mut o = Vec::new();
+    f_i64(&mut o, 1, 8);
+    f_bytes(&mut o, 7, &g);
+    let mut os = Vec::new();
+    f_str(&mut os, 1, "");
+    f_i64(&mut os, 2, 21);
+    f_bytes(&mut o, 8, &os);
+    let attrs = if toks.is_empty() { "-".to_string() } else { toks.join(",") };
+    Case {
+        req: format!("constop {outputs} {attrs} | {frag}"),
+        fmt: Fmt::Onnx,
+        bytes: o,
+        ext: if used_value { ext_bufs } else { vec![] },
+        answer: Answer::Constant,
+        buckets: vec![format!("constop:attrs:{nattrs}"), format!("constop:first:{}", toks.first().map(|t| t.split(':').next().unwrap().to_string()).unwrap_or("none".into()))],
+        nontrivial: true,
+        via_file: k % 16 == 9,
+    }
+}
+
+/// Attributes that the ONNX registry promotes to constant operator inputs
+/// (`constant_from_attr_value`): the constant has no name.
+fn case_attrconst(rng: &mut Rng, k: usize) -> Case {
+    use onnx_enc::{dt, Attr, Graph, Node, ValueInfo};
+    let (node, opset, spec): (Node, i64, String) = match k % 4 {
+        0 => (Node::new("Clip", "op", &["x"], &["y"]).attr("min", Attr::Float(-0.5)), 6, "-".into()),
+        1 => (Node::new("TopK", "op", &["x"], &["y", "yi"]).attr("k", Attr::Int(*rng.pick(&[1i64, 3, i64::MAX]))), 1, "-".into()),
+        2 => {
+            let n = rng.usize_below(4);
+            (Node::new("Unsqueeze", "op", &["x"], &["y"]).attr("axes", Attr::Ints((0..n as i64).collect())), 11, n.to_string())
+        }
+        _ => {
+            let n = *rng.pick(&[0usize, 1, 4, 40]);
+            (Node::new("Upsample", "op", &["x"], &["y"]).attr("scales", Attr::Floats(vec![1.0; n])), 7, n.to_string())
+        }
+    };
+    let g = Graph {
+        nodes: vec![node],
+        inputs: vec![ValueInfo::fixed("x", dt::FLOAT, &[1, 3, 4, 4])],
+        outputs: vec![ValueInfo::new("y", dt::FLOAT, None)],
+        ..Default::default()
+    };
+    Case {
+        req: format!("attrconst {spec}"),
+        fmt: Fmt::Onnx,
+        bytes: g.into_model_bytes(opset),
+        ext: vec![],
+        answer: Answer::Unnamed,
+        buckets: vec![format!("attrconst:{}", ["clip.min", "topk.k", "unsqueeze.axes", "upsample.scales"][k % 4])],
+        nontrivial: true,
+        via_file: false,
     }
 }
 
@@ -835,6 +1021,52 @@ fn case_rten_stored(rng: &mut Rng, k: usize) -> Case {
         ],
         nontrivial: true,
         via_file: k % 16 == 7,
+    }
+}
+
+/// Several `.rten` constants (inline and stored) in one V2 file.
+fn case_rten_all(rng: &mut Rng, k: usize) -> Case {
+    let n = 2 + rng.usize_below(2);
+    let mut consts = vec![];
+    let mut frags = vec![];
+    let tdata: Vec<u8> = (0..64u32).map(|i| i as u8).collect();
+    for i in 0..n {
+        let tyi = rng.usize_below(4);
+        let (ty_name, size) = RTYPES[tyi];
+        let (dims, p) = if rng.chance(2, 3) {
+            let d: Vec<u32> = (0..rng.usize_below(3)).map(|_| rng.range_i64(1, 3) as u32).collect();
+            let p: u64 = d.iter().map(|&x| x as u64).product();
+            (d, Some(p))
+        } else {
+            let (d, _, p) = gen_dims_u32(rng);
+            (d, p)
+        };
+        let name = if i == 0 { "c".to_string() } else { format!("c{i}") };
+        if rng.chance(1, 2) {
+            let cnt = if rng.chance(3, 4) { p.unwrap_or(1).min(64) as usize } else { gen_count(rng, p).min(64) as usize };
+            consts.push(RConst { name, dims: dims.clone(), data: RData::Inline(tyi as u8, cnt) });
+            frags.push(format!("inline {ty_name} {} n={cnt}", dims_str(&dims)));
+        } else {
+            let off = *rng.pick(&[0u64, 0, 4, 8, 16, 1, 60, 64, 65, u64::MAX - 3]);
+            let _ = size;
+            consts.push(RConst { name, dims: dims.clone(), data: RData::Stored(off, tyi as u8) });
+            frags.push(format!("stored {ty_name} {} off={off}", dims_str(&dims)));
+        }
+    }
+    let fb = rten_flatbuffer(&consts, &[(ROp::Identity, vec![0])], 1, None);
+    let f = rten_v2(&fb, &tdata);
+    let tdo = 32 + fb.len();
+    let slen = f.len();
+    let _ = k;
+    Case {
+        req: format!("rtenall {} tdo={tdo} slen={slen} | {}", mode_word(), frags.join(" | ")),
+        fmt: Fmt::Rten,
+        bytes: f,
+        ext: vec![],
+        answer: Answer::All(n),
+        buckets: vec!["rtenall".into()],
+        nontrivial: true,
+        via_file: false,
     }
 }
 
@@ -1271,6 +1503,10 @@ enum Cat {
     Header,
     Fuzz,
     Nest,
+    OnnxAll,
+    RtenAll,
+    ConstOp,
+    AttrConst,
     Probe,
 }
 
@@ -1283,6 +1519,10 @@ fn plan(thorough: bool) -> Vec<(Cat, usize)> {
         (Cat::Header, 1500 * m),
         (Cat::Fuzz, 12000 * m),
         (Cat::Nest, if thorough { 3 * 18 } else { 3 * 8 }),
+        (Cat::OnnxAll, 2000 * m),
+        (Cat::RtenAll, 1500 * m),
+        (Cat::ConstOp, 2500 * m),
+        (Cat::AttrConst, 200 * m),
         (Cat::Probe, if thorough { 4 } else { 3 }),
     ]
 }
@@ -1303,6 +1543,10 @@ fn gen_case(seed: u64, thorough: bool, idx: usize) -> Case {
                 Cat::Header => case_header(&mut rng, k),
                 Cat::Fuzz => case_fuzz(&mut rng, k),
                 Cat::Nest => case_nest(&mut rng, k),
+                Cat::OnnxAll => case_onnx_all(&mut rng, k),
+                Cat::RtenAll => case_rten_all(&mut rng, k),
+                Cat::ConstOp => case_constop(&mut rng, k),
+                Cat::AttrConst => case_attrconst(&mut rng, k),
                 Cat::Probe => case_probe(&mut rng, k),
             };
         }
@@ -1315,7 +1559,7 @@ fn gen_case(seed: u64, thorough: bool, idx: usize) -> Case {
 // Running one case (child side)
 
 fn classify_err(msg: &str) -> String {
-    let pats: [(&str, &str); 16] = [
+    let pats: [(&str, &str); 17] = [
         ("initializer has invalid shape", "shape"),
         ("unsupported data location", "location"),
         ("invalid external data", "extmeta"),
@@ -1330,6 +1574,7 @@ fn classify_err(msg: &str) -> String {
         ("invalid tensor data offset", "offset"),
         ("tensor data section missing", "nodata"),
         ("invalid header", "header"),
+        ("operator error", "opinvalid"),
         ("parse error", "parse"),
         ("unknown model file type", "filetype"),
     ];
@@ -1376,9 +1621,9 @@ fn check_view<T: Copy>(name: &str, t: TensorView<T>) -> Result<(Vec<usize>, usiz
     Ok((shape, data.len()))
 }
 
-/// Oracle over every constant of a loaded model; returns (shape, data len) of the constant "c".
-fn check_model(model: &Model) -> Result<Option<(Vec<usize>, usize)>, String> {
-    let mut target = None;
+/// Oracle over every constant of a loaded model; returns (name, shape, data len) of each.
+fn check_model(model: &Model) -> Result<Vec<(String, Vec<usize>, usize)>, String> {
+    let mut all = vec![];
     for (_id, node) in model.verif_graph().iter() {
         if let rv::Node::Constant(c) = node {
             let name = c.name().unwrap_or("").to_string();
@@ -1389,12 +1634,10 @@ fn check_model(model: &Model) -> Result<Option<(Vec<usize>, usize)>, String> {
                 rten::ValueView::UInt8Tensor(t) => check_view(&name, t)?,
                 _ => continue,
             };
-            if name == "c" {
-                target = Some(r);
-            }
+            all.push((name, r.0, r.1));
         }
     }
-    Ok(target)
+    Ok(all)
 }
 
 fn value_len(v: &rten::Value) -> Option<usize> {
@@ -1429,8 +1672,25 @@ fn run_case(case: &Case, idx: usize, tmp: &str) -> Res {
         Ok(Ok(model)) => {
             class = "ok";
             match catch(|| check_model(model)) {
-                Ok(Ok(Some((shape, len)))) => format!("ok {} {len}", dims_str(&shape)),
-                Ok(Ok(None)) => "ok".to_string(),
+                Ok(Ok(all)) => {
+                    let find = |n: &str| all.iter().find(|c| c.0 == n).map(|c| format!("{} {}", dims_str(&c.1), c.2));
+                    match case.answer {
+                        Answer::All(n) => {
+                            let parts: Vec<String> = (0..n)
+                                .map(|i| find(&if i == 0 { "c".to_string() } else { format!("c{i}") }).unwrap_or("missing".into()))
+                                .collect();
+                            format!("ok {}", parts.join(";"))
+                        }
+                        Answer::Unnamed => {
+                            let un: Vec<String> = all.iter().filter(|c| c.0.is_empty()).map(|c| format!("{} {}", dims_str(&c.1), c.2)).collect();
+                            if un.len() == 1 { format!("ok {}", un[0]) } else { format!("ok unnamed-constants={}", un.len()) }
+                        }
+                        _ => match find("c") {
+                            Some(x) => format!("ok {x}"),
+                            None => "ok".to_string(),
+                        },
+                    }
+                }
                 Ok(Err(m)) => {
                     fails.push(m);
                     "ok".to_string()
@@ -1493,7 +1753,7 @@ fn run_case(case: &Case, idx: usize, tmp: &str) -> Res {
         Answer::Parse => {
             ans = if class == "panic" { "panic".into() } else if ans == "err:parse" { ans } else { "past-parse".into() };
         }
-        Answer::Constant => {}
+        Answer::Constant | Answer::All(_) | Answer::Unnamed => {}
     }
     extra.push(format!("out:{}", ans.split(' ').next().unwrap()));
     // 2. default options (optimizer + shape inference on)
